@@ -24,6 +24,7 @@ def one(spec, R, batch, stats, considered_mode):
     b = GR.build(spec)
     try:
         decl = declared_grammar(list(b.classes.values()), b.start)     # declared weights, before any extraction
+        decl = GR.declared_from_spec(decl, spec)                        # ... as WRITTEN, not as the decorators stored them
         considered = b.considered if considered_mode == "all-classes" else \
             [c for c in b.considered if not any(x["name"] == c.__name__ and x["abstract"] for x in spec["classes"])]
         evs = []
@@ -71,6 +72,44 @@ def one(spec, R, batch, stats, considered_mode):
                     except Exception as e:
                         evs.append({"e": "choose", "chooser": "stack-choice_weighted", "options": names, "ws": ws,
                                     "chosen": 1, "exc": exc_name(e)})
+        # whole programs built by the weight-aware machines (stack mapping, progressively-terminal creation): which
+        # classes occur in them.  Only where every class-typed field is of an ABSTRACT type, so that every class in a
+        # program got there through a weighted choice.
+        abstract_names = {c["name"] for c in spec["classes"] if c["abstract"]}
+
+        def syms(f):
+            if f[0] == "sym":
+                return [f[1]]
+            if f[0] in ("list", "ann"):
+                return syms(f[1])
+            if f[0] in ("tuple", "union"):
+                return [x for y in f[1] for x in syms(y)]
+            return []
+        only_abstract = all(sy in abstract_names for c in spec["classes"] for _, f in c["fields"] for sy in syms(f))
+        if g is not None and only_abstract and spec["start"] in abstract_names:
+            from geneticengine.random.sources import NativeRandomSource
+            from geneticengine.representations.stackgggp import StackBasedGGGPRepresentation
+            from geneticengine.representations.tree.treebased import TreeBasedRepresentation
+
+            def classes_in(v, acc):
+                if isinstance(v, (list, tuple)):
+                    for x in v:
+                        classes_in(x, acc)
+                elif type(v).__name__ in b.classes:
+                    acc.add(type(v).__name__)
+                    for fn in getattr(v, "__dataclass_fields__", {}):
+                        classes_in(getattr(v, fn), acc)
+                return acc
+            rs = NativeRandomSource(R.randint(0, 10 ** 6))
+            for machine, rep in (("stack-mapping", StackBasedGGGPRepresentation(g, gene_length=200)),
+                                 ("pt-creation", TreeBasedRepresentation(g, ProgressivelyTerminalDecider(rs, g)))):
+                for _ in range(25):
+                    try:
+                        with time_limit(5):
+                            ph = rep.genotype_to_phenotype(rep.create_genotype(rs))
+                    except Exception:
+                        continue            # an exhausted stack genome is not this property's business
+                    evs.append({"e": "prog", "machine": machine, "classes": sorted(classes_in(ph, set()))})
         batch.trace(f"{spec['id']}/{considered_mode}", evs, {"k": "c19", "g": decl, "considered": considered_mode})
         stats["events"] += len(evs)
     finally:
@@ -86,6 +125,14 @@ W_FIXED = [
         {"name": "Add", "parent": "Op", "abstract": False, "fields": [("l", ("sym", "E"))], "weight": 0.1},
         {"name": "Mul", "parent": "Op", "abstract": False, "fields": [("l", ("sym", "E"))], "weight": 0.3},
         {"name": "Off", "parent": "Op", "abstract": False, "fields": [("l", ("sym", "E"))], "weight": 0}]},
+    {"id": "w-nested-below", "start": "E", "classes": [           # @abstract stacked ABOVE @weight on a nested abstract type
+        {"name": "E", "parent": "", "abstract": True, "fields": []},
+        {"name": "Compound", "parent": "E", "abstract": True, "fields": [], "style": "decorator", "weight": 6,
+         "weight_below_abstract": True},
+        {"name": "Lit", "parent": "E", "abstract": False, "fields": [], "weight": 2},
+        {"name": "Var", "parent": "E", "abstract": False, "fields": []},
+        {"name": "Add", "parent": "Compound", "abstract": False, "fields": [("l", ("sym", "E"))]},
+        {"name": "Mul", "parent": "Compound", "abstract": False, "fields": [("l", ("sym", "E"))], "weight": 3}]},
     {"id": "w-single", "start": "E", "classes": [
         {"name": "E", "parent": "", "abstract": True, "fields": []},
         {"name": "U", "parent": "", "abstract": True, "fields": []},
